@@ -31,6 +31,7 @@ def _worker_path(prefix):
         out["status"], out["message"] = "error", "%s: %s\n%s" % (type(e).__name__, e, traceback.format_exc())
     out["results"] = run.results
     out["covered"] = run.covered
+    out["called"] = run.called
     out["completed"] = run.completed_paths
     out["outcomes"] = run.outcomes
     out["canary"] = run.canary_ok
@@ -56,6 +57,7 @@ class FunctionRun:
         self.sha = None
         self.sample_paths = []
         self.jobs = jobs
+        self.called = set()
 
     def _run_parallel(self, mod, fnode):
         """Explore paths in forked worker processes (each path is independent given its decision prefix)."""
@@ -85,6 +87,7 @@ class FunctionRun:
                         return
                     self.results.extend(r["results"])
                     self.covered |= r["covered"]
+                    self.called |= r["called"]
                     self.completed_paths += r["completed"]
                     for k, v in r["outcomes"].items():
                         self.outcomes[k] = self.outcomes.get(k, 0) + v
@@ -220,7 +223,7 @@ class FunctionRun:
             self.outcomes["return"] = self.outcomes.get("return", 0) + 1
             env.extra["result"] = val
             ctx.cover(q + "/return")
-            for nm, s in c.ensures.items():
+            for nm, s in list(c.ensures.items()) + list(c.ensures_body.items()):
                 try:
                     goal = ops.truth(interp.spec(s, env))
                 except PyRaise as pr:
